@@ -1,0 +1,44 @@
+//go:build verif
+// +build verif
+
+package block
+
+import (
+	"github.com/ElrondNetwork/elrond-go/core"
+	"github.com/ElrondNetwork/elrond-go/data"
+	"github.com/ElrondNetwork/elrond-go/data/state"
+)
+
+// StatePruningSitesVerif exposes the two state pruning call sites of baseProcessor
+// (updateStateStorage on finalization, PruneStateOnRollback on rollback) on a bare baseProcessor
+// that holds only the user accounts adapter. Verification builds only (build tag `verif`).
+type StatePruningSitesVerif struct {
+	bp *baseProcessor
+}
+
+// NewStatePruningSitesVerif builds the bare processor
+func NewStatePruningSitesVerif(accounts state.AccountsAdapter, stateCheckpointModulus uint) *StatePruningSitesVerif {
+	return &StatePruningSitesVerif{
+		bp: &baseProcessor{
+			accountsDB: map[state.AccountsDbIdentifier]state.AccountsAdapter{
+				state.UserAccountsState: accounts,
+			},
+			stateCheckpointModulus: stateCheckpointModulus,
+		},
+	}
+}
+
+// UpdateStateStorage calls baseProcessor.updateStateStorage for the user accounts state
+func (s *StatePruningSitesVerif) UpdateStateStorage(
+	finalHeader data.HeaderHandler,
+	rootHash []byte,
+	prevRootHash []byte,
+	statePruningQueue core.Queue,
+) {
+	s.bp.updateStateStorage(finalHeader, rootHash, prevRootHash, s.bp.accountsDB[state.UserAccountsState], statePruningQueue)
+}
+
+// PruneStateOnRollback calls baseProcessor.PruneStateOnRollback
+func (s *StatePruningSitesVerif) PruneStateOnRollback(currHeader data.HeaderHandler, prevHeader data.HeaderHandler) {
+	s.bp.PruneStateOnRollback(currHeader, prevHeader)
+}
